@@ -25,7 +25,19 @@ def check(fb, ctx):
         assigned = sorted({"".join(p for p in (s["d"].get("p") or []) if p.startswith(".")) for blk in b["blocks"] for s in blk["s"] if s["d"].get("p") and any(p.startswith(".") for p in s["d"]["p"])})
         sc = mirq.calls_matching(fb, b, r"SerializedBiscuit::seal$")
         cl = [c for c in fb.calls(b) if not c.indirect and (c.rpath or "").endswith("Clone>::clone")]
-        ctx.check(assigned == [".container"] and len(sc) == 1 and sigs.Layout(fb, b).operand(sc[0].args[0]) == "arg1.container" and bool(cl), "SEAL", f"{short}: a clone of self with only the container replaced by the sealed one", f"SEAL|{short}", f"fields assigned: {assigned}; seal calls: {len(sc)}", f"{b['file']}:{b['line']}")
+        clone_form = assigned == [".container"] and len(sc) == 1 and sigs.Layout(fb, b).operand(sc[0].args[0]) == "arg1.container" and bool(cl)
+        # equivalent: a struct literal whose container is self.container.seal() and whose other fields are copies of self's
+        lit_form = False
+        aggs_ = [s_ for _, s_ in mirq.aggregates(b, r"token::(unverified::)?(Biscuit|UnverifiedBiscuit)$")]
+        if not clone_form and len(aggs_) == 1 and len(sc) == 1 and sigs.Layout(fb, b).operand(sc[0].args[0]) == "arg1.container":
+            lit_form = True
+            for f_ in (aggs_[0]["r"].get("fields") or []):
+                lv_ = mirq.operand_leaves(fb, b, mirq.agg_field(aggs_[0], f_))
+                if f_ == "container":
+                    lit_form = lit_form and any(l.endswith("SerializedBiscuit::seal") for l in lv_)
+                else:
+                    lit_form = lit_form and {l for l in lv_ if l.startswith("arg")} == {f"arg1.{f_}"}
+        ctx.check(clone_form or lit_form, "SEAL", f"{short}: a clone of self with only the container replaced by the sealed one", f"SEAL|{short}", f"fields assigned: {assigned}; seal calls: {len(sc)}", f"{b['file']}:{b['line']}")
         mirq.must_pass(fb, ctx, b, r"SerializedBiscuit::seal$", "SEAL", f"{short}: error of container.seal() is propagated", f"SEAL|{short}|used")
     ctx.not_decided = ["`authorizes exactly like the unsealed one` beyond identical blocks", "tamper resistance of sealed bytes beyond C01's rules"]
     ctx.trusted = ["oracle/signature_layout.json", "rustc MIR"]
